@@ -86,6 +86,29 @@ class Spec:
                     out.append(k)
         return out
 
+    def opaques(self):
+        out = []
+        for m in self.maps:
+            for v in m['rep'][2:]:
+                if isinstance(v, Opaque) and v.name not in [o.name for o in out]:
+                    out.append(v)
+        return out
+
+    def with_numbers(self):
+        """concrete variants of a template's symbolic repeat timings (used only when the tree under test branches on them
+        while building the mapper): ordinary, zero, negative, largest"""
+        out = []
+        for tag, (d, i_) in (('130-30', (130, 30)), ('0-0', (0, 0)), ('neg', (-5, -3)), ('max', (2147483647, 2147483647))):
+            maps = []
+            for m in self.maps:
+                rep = m['rep']
+                if rep[0] == 'Special':
+                    rep = (rep[0], list(rep[1]), d if isinstance(rep[2], Opaque) else rep[2], i_ if isinstance(rep[3], Opaque) else rep[3])
+                maps.append(dict(frm=list(m['frm']), to=list(m['to']), rep=rep, absb=list(m['absb'])))
+            out.append(Spec('%s@%s' % (self.name, tag), maps, N=self.N, depth=self.depth, alphabet=self.alphabet,
+                            note=self.note + '; concrete repeat timings (the tree branches on them while building the mapper)', no_foreign=self.no_foreign))
+        return out
+
     def instantiate(self, rng):
         """one concrete instance of a template (used when the tree under test does arithmetic on key codes, so that
         Mapper::for_layout cannot run on symbolic layout keys): distinct non-modifier codes outside the layout's constants,
@@ -109,7 +132,7 @@ class Spec:
             if rep[0] == 'Special':
                 rep = (rep[0], [f(k) for k in rep[1]], rep[2], rep[3])
             maps.append(dict(frm=[f(k) for k in m['frm']], to=[f(k) for k in m['to']], rep=rep, absb=[f(k) for k in m['absb']]))
-        sp = Spec(self.name + '@instance', maps, N=self.N, depth=self.depth, alphabet=None if self.alphabet is None else [f(k) for k in self.alphabet],
+        sp = Spec(self.name + ('@instance' if '@' not in self.name else '+instance'), maps, N=self.N, depth=self.depth, alphabet=None if self.alphabet is None else [f(k) for k in self.alphabet],
                   note=self.note + '; concrete instance (the tree does arithmetic on key codes)', no_foreign=self.no_foreign)
         return sp
 
@@ -489,7 +512,7 @@ def concretise(spec, hist, trace, opaque_vals=None):
 
     def ov(v):
         if isinstance(v, Opaque):
-            return (opaque_vals or {}).get(v.name, 100 + (hash(v.name) % 50))
+            return (opaque_vals or {}).get(v.name, 100 + (sum(ord(ch) * (i_ + 1) for i_, ch in enumerate(v.name)) % 50))
         return v
     lay = []
     for m in spec.maps:
